@@ -197,6 +197,25 @@ macro_rules! complete_branch {
     };
 }
 
+/// True if the cursor is between the token in front of a branch
+/// (the `)` of the condition or the `else` keyword) and the branch itself.
+/// A new statement can be started there.
+fn at_branch_start(
+    branch: &Option<Box<Reference<Statement>>>,
+    position: usize,
+    tokens: &[Token],
+) -> bool {
+    branch.as_ref().map_or(false, |stmt| {
+        stmt.offset > 0
+            && tokens
+                .get(stmt.offset - 1)
+                .map_or(false, |token| position >= token.range.end)
+            && tokens
+                .get(stmt.offset)
+                .map_or(true, |token| position < token.range.start)
+    })
+}
+
 fn complete_statement(
     stmt: &Reference<Statement>,
     position: usize,
@@ -231,10 +250,18 @@ fn complete_statement(
         Statement::If(i) => {
             complete_branch!(&i.if_branch, position, tokens, last_token, lookup_table);
             complete_branch!(&i.else_branch, position, tokens, last_token, lookup_table);
+            if at_branch_start(&i.if_branch, position, tokens)
+                || at_branch_start(&i.else_branch, position, tokens)
+            {
+                return Some(new_stmt(lookup_table));
+            }
             complete_vars(tokens, position, lookup_table, TokenType::LParen)
         }
         Statement::While(w) => {
             complete_branch!(&w.statement, position, tokens, last_token, lookup_table);
+            if at_branch_start(&w.statement, position, tokens) {
+                return Some(new_stmt(lookup_table));
+            }
             complete_vars(tokens, position, lookup_table, TokenType::LParen)
         }
         Statement::Error(_) | Statement::Empty(_) => Some(new_stmt(lookup_table)),
